@@ -39,6 +39,18 @@ func (q *query) isStarvationTermination() bool
   ensures imp(old(q.queryPeers.sorted), q.queryPeers.all == old(q.queryPeers.all) && q.queryPeers.$idx == old(q.queryPeers.$idx))
   ensures [meaning] iff(result, all(m, 0, len(q.queryPeers.all), q.queryPeers.all[m].state != qpeerset.PeerHeard && q.queryPeers.all[m].state != qpeerset.PeerWaiting))
 
+# "res is the lookup result of peer set qp for bucket size K": peers are the K
+# nearest members that have not failed (ascending, distinct, with their
+# states), closest the K nearest members overall. This is property C01's
+# result clause over the abstract view of the peer set.
+ghost field (lookupWithFollowupResult) $qp *qpeerset.QueryPeerset
+pred lrMembers(res *lookupWithFollowupResult, qp *qpeerset.QueryPeerset) = all(j, 0, len(res.peers), qp.$has[res.peers[j]] && qpeerset.stateOf(qp, res.peers[j]) != qpeerset.PeerUnreachable && res.state[j] == qpeerset.stateOf(qp, res.peers[j]))
+pred lrAscending(res *lookupWithFollowupResult, qp *qpeerset.QueryPeerset) = all(a, 0, len(res.peers), all(b, a+1, len(res.peers), pdist(qp, res.peers[a]) <= pdist(qp, res.peers[b]) && res.peers[a] != res.peers[b]))
+pred lrTopK(res *lookupWithFollowupResult, qp *qpeerset.QueryPeerset, K int) = all(m, 0, len(qp.all), imp(qp.all[m].state != qpeerset.PeerUnreachable && all(j, 0, len(res.peers), res.peers[j] != qp.all[m].id), len(res.peers) == K && all(j, 0, len(res.peers), pdist(qp, res.peers[j]) <= bigval(qp.all[m].distance))))
+pred lrClosest(res *lookupWithFollowupResult, qp *qpeerset.QueryPeerset, K int) = all(m, 0, len(qp.all), imp(all(j, 0, len(res.closest), res.closest[j] != qp.all[m].id), len(res.closest) == K && all(j, 0, len(res.closest), qp.$has[res.closest[j]] && pdist(qp, res.closest[j]) <= bigval(qp.all[m].distance))))
+pred lrShape(res *lookupWithFollowupResult, K int) = len(res.state) == len(res.peers) && len(res.peers) <= K && len(res.closest) <= K
+pred lookupResultOK(res *lookupWithFollowupResult, qp *qpeerset.QueryPeerset, K int) = lrShape(res, K) && lrMembers(res, qp) && lrAscending(res, qp) && lrTopK(res, qp, K) && lrClosest(res, qp, K)
+
 func (q *query) constructLookupResult() *lookupWithFollowupResult
   props C01 C02
   requires QI(q) && cfgOK(q.dht)
@@ -47,12 +59,51 @@ func (q *query) constructLookupResult() *lookupWithFollowupResult
   modifies q.queryPeers.all, q.queryPeers.sorted, q.queryPeers.$idx, q.queryPeers.$src, q.queryPeers.$rank, q.queryPeers.$cnt
   ensures QI(q)
   ensures len(qp.all) == old(len(qp.all)) && qpeerset.sameEntries(qp)
-  ensures result != nil && len(result.state) == len(result.peers) && len(result.peers) <= K && len(result.closest) <= K
-  ensures [members] all(j, 0, len(result.peers), qp.$has[result.peers[j]] && qpeerset.stateOf(qp, result.peers[j]) != qpeerset.PeerUnreachable && result.state[j] == qpeerset.stateOf(qp, result.peers[j]))
-  ensures [ascending] all(a, 0, len(result.peers), all(b, a+1, len(result.peers), pdist(qp, result.peers[a]) <= pdist(qp, result.peers[b]) && result.peers[a] != result.peers[b]))
-  ensures [topK] all(m, 0, len(qp.all), imp(qp.all[m].state != qpeerset.PeerUnreachable && all(j, 0, len(result.peers), result.peers[j] != qp.all[m].id), len(result.peers) == K && all(j, 0, len(result.peers), pdist(qp, result.peers[j]) <= bigval(qp.all[m].distance))))
-  ensures [closestTopK] all(m, 0, len(qp.all), imp(all(j, 0, len(result.closest), result.closest[j] != qp.all[m].id), len(result.closest) == K && all(j, 0, len(result.closest), qp.$has[result.closest[j]] && pdist(qp, result.closest[j]) <= bigval(qp.all[m].distance))))
+  ensures result != nil && result.$qp == qp
+  ensures [shape] lrShape(result, K)
+  ensures [members] lrMembers(result, qp)
+  ensures [ascending] lrAscending(result, qp)
+  ensures [topK] lrTopK(result, qp, K)
+  ensures [closestTopK] lrClosest(result, qp, K)
   ensures [starved] imp(all(m, 0, len(qp.all), qp.all[m].state != qpeerset.PeerHeard && qp.all[m].state != qpeerset.PeerWaiting), result.completed)
+  ghost at return: result.$qp = q.queryPeers
   loop over peers invariant res != nil && len(res.state) == len(peers) && res.peers == peers && res.closest == closest && res.completed == completed
   loop over peers invariant all(j, 0, $key, res.state[j] == qpeerset.stateOf(q.queryPeers, peers[j]))
+
+# The lookup loop itself (token/channel argument) is not yet verified: its
+# contract is ASSUMED and listed as such in the evidence.
+func (q *query) run()
+  trusted
+  requires QI(q) && cfgOK(q.dht)
+  modifies *
+  ensures QI(q) && cfgOK(q.dht)
+  ensures q.queryPeers == old(q.queryPeers) && q.dht == old(q.dht)
+
+func (dht *IpfsDHT) runQuery(ctx context.Context, target string, queryFn queryFn, stopFn stopFn) (*lookupWithFollowupResult, *qpeerset.QueryPeerset, error)
+  props C01
+  requires cfgOK(dht)
+  modifies *
+  ensures imp(result2 != nil, result0 == nil && result1 == nil)
+  ensures imp(result2 == nil, result0 != nil && result1 != nil && result0.$qp == result1 && qpeerset.wf(result1) && !result1.$has[dht.self])
+  ensures imp(result2 == nil, lookupResultOK(result0, result1, dht.bucketSize))
+
+role stopFn(qp *qpeerset.QueryPeerset) bool in (dht *IpfsDHT) runLookupWithFollowup(ctx context.Context, target string, queryFn queryFn, stopFn stopFn) (*lookupWithFollowupResult, error)
+  pure
+
+func (dht *IpfsDHT) runLookupWithFollowup(ctx context.Context, target string, queryFn queryFn, stopFn stopFn) (*lookupWithFollowupResult, error)
+  props C01 C02
+  requires cfgOK(dht)
+  modifies *
+  ensures imp(result1 != nil, result0 == nil)
+  ensures imp(result1 == nil, result0 != nil && result0.$qp != nil && qpeerset.wf(result0.$qp) && !result0.$qp.$has[dht.self])
+  ensures imp(result1 == nil, lookupResultOK(result0, result0.$qp, dht.bucketSize))
+
+func (dht *IpfsDHT) GetClosestPeers(ctx context.Context, key string) ([]peer.ID, error)
+  props C01 C02
+  requires cfgOK(dht)
+  ghostvar $lr *lookupWithFollowupResult = nil
+  modifies *
+  ensures [result-is-peers] imp($lr != nil, result0 == $lr.peers && lookupResultOK($lr, $lr.$qp, dht.bucketSize) && !$lr.$qp.$has[dht.self])
+  ensures imp($lr == nil, result1 != nil && len(result0) == 0)
+  ghost at call(runLookupWithFollowup): $lr = $ret0
 @*/
